@@ -333,6 +333,8 @@ class CounterInterp:
                     s.v.pop(name, None)
                 # boolean temporaries (`outermost = self._cnt == 0 or force`)
                 bv = self.eval_bool(v, s, g) if v is not None else None
+                if ('A:' + n.meta['name']) in s.facts:
+                    bv = s.facts.pop('A:' + n.meta['name'])      # outcome of the TL.acquire(...) stored here
                 s.facts.pop('D:' + n.meta['name'], None)
                 if bv is not None:
                     s.facts['B:' + n.meta['name']] = bv
@@ -663,6 +665,32 @@ class CounterInterp:
                     s.v['DEPTH'] = s.v['DEPTH'] + Lin(0, 1)
                     s.effects += 1
                     return [(e, s.copy()) for e in normal]
+                # `got = TL.acquire(b, t)` ... `if not got:`: the result is kept in a flag; both outcomes are followed
+                # and the flag's value remembered (the store that follows keeps it)
+                par_ = getattr(call, '_parent', None)
+                tgt_ = None
+                if isinstance(par_, ast.Assign) and len(par_.targets) == 1 and isinstance(par_.targets[0], ast.Name):
+                    tgt_ = par_.targets[0].id
+                elif isinstance(par_, ast.AnnAssign) and isinstance(par_.target, ast.Name):
+                    tgt_ = par_.target.id
+                if tgt_ is not None:
+                    res_ = []
+                    s1 = st.copy()
+                    dmin = s1.v['DEPTH'].at(s1.c_known) if s1.c_known is not None else s1.v['DEPTH'].min_for(s1.cmin)
+                    if s1.locked is not None and (dmin is None or dmin <= 0):
+                        s1.trace.append(f'{g.loc(n)} LOCKED={s1.locked} was read without the thread lock: forgotten')
+                        s1.locked = None
+                    s1.v['DEPTH'] = s1.v['DEPTH'] + Lin(0, 1)
+                    s1.effects += 1
+                    s1.facts['A:' + tgt_] = True
+                    s1.trace.append(f'{g.loc(n)} TL.acquire succeeded DEPTH:={s1.v["DEPTH"]!r} ({tgt_}=True)')
+                    s2 = st.copy()
+                    s2.facts['A:' + tgt_] = False
+                    s2.trace.append(f'{g.loc(n)} TL.acquire failed ({tgt_}=False)')
+                    for e in normal:
+                        res_.append((e, s1.copy()))
+                        res_.append((e, s2.copy()))
+                    return res_
                 raise Undecided(f'result of TL.acquire(...) is not tested at {g.loc(n)}')
         info = n.meta.get('callee') or callee_info(g, call)
         if info['kind'] == 'package' and depth < 4:
